@@ -59,6 +59,12 @@ CHECKS["C16"] = (
     "Trusts the G-AST printer and renamer (names never collide with keywords/builtins); the comparison is per back end, so back-end disagreements (C01) do not leak in.",
     "DESIGN.md §3 C16",
 )
+CHECKS["C19"] = (
+    "history oracle over concurrent executions: K threads released on a barrier compile and run jobs, each thread's rendered diagnostics / output hashes are compared with the same job run alone (fresh process + twice in-process); cfg-guarded interner hook logs lock-acquisition order and yields after unlocks; ThreadSanitizer build of the same workload on demand",
+    "Each case is a schedule of 2-16 threads x 1-3 compile+run jobs (shipped sources with macros/modules/type declarations, generated programs, ill-typed mutants and broken texts, identical and distinct sources, VM and WASM, a long-running machine next to compilations), repeated 2-3 times with different yield seeds; outcomes must equal the alone outcomes, no thread may die, the interner must not be poisoned, and a schedule that does not finish is confirmed by the supervisor re-running it alone. Evidence lists the lock handovers and the distinct lock-acquisition orders actually observed.",
+    "Only the interleavings observed are covered (hundreds of thousands of interner lock handovers per quick run); independent diagnostics are compared as a multiset because their order follows per-thread hash seeds even without concurrency; jobs that kill a process alone make the schedule inconclusive.",
+    "DESIGN.md §3 C19",
+)
 PENDING = {}
 
 def main():
